@@ -24,9 +24,9 @@ def gen_cases(ctx):
                 with_header = r.random() < 0.3
                 n = r.choice([None, 1, 2, 3, nl, nl + 5]) if not big else r.choice([1, 2, 5, 40])
                 out.append({'part': PART, 'kind': 'head', 'port': port, 'lines': lines, 'n': n, 'with_header': with_header, 'big': big})
-    for _ in range(6):
-        rows = [['k%d' % i, r.choice(['x', 'y'])] for i in range(r.randint(0, 8))]
-        out.append({'part': PART, 'kind': 'sqlite_head', 'port': 'py', 'rows': rows, 'n': r.choice([None, 1, 2, 3, len(rows) + 2])})
+    for i in range(6):
+        rows = [['k%d' % j, r.choice(['x', 'y'])] for j in range(r.randint(0 if i else 2, 8))]
+        out.append({'part': PART, 'kind': 'sqlite_head', 'port': 'py', 'rows': rows, 'n': [len(rows) + 2, None, 1, 2, 3, len(rows)][i]})      # (more rows asked for than there are: first)
     for _ in range(8):
         table = [[r.choice(['a', 'b c', 'x,y', 'q"r', '']) for _ in range(r.randint(1, 3))] for _ in range(r.randint(0, 5))]
         out.append({'part': PART, 'kind': 'write_all', 'port': 'py', 'table': table, 'delim': r.choice([',', ';', '\t']), 'policy': r.choice(['simple', 'quoted', 'quoted_rfc'])})
